@@ -14,6 +14,9 @@
      RET <rax> <rdx> <xmm0> <xmm1> <nld> <ld0lo> <ld0hi> <ld1lo> <ld1hi>    hex; probe results
      IN <hexbytes>                  contents of the input buffer handed to f (p:in)
      OUTN <n>                       bytes of the output buffer to print
+     STEP <k>                       optional: the following RET/IN/OUTN belong to step k (0..7) of a call
+                                    SEQUENCE executed in ONE context: the module then exports f0..f<n-1>
+                                    (each with its own prototype) and answers carry the id <id>.<k>
      MIR ... ENDMIR                 module text; must export `f: func p:in, p:out` and import `probe`
    stdout per (case, engine):
      S <id> <eng> <calls> <snap words...>        (probe callee)
@@ -56,8 +59,11 @@ static char *mir_text;
 static size_t mir_len, mir_cap;
 static unsigned char in_buf[8192] __attribute__ ((aligned (16)));
 static unsigned char out_buf[1024] __attribute__ ((aligned (16)));
-static unsigned char in_img[8192];
-static size_t in_n, out_n;
+#define MAX_STEPS 8
+static unsigned char in_img[MAX_STEPS][8192];
+static uint64_t step_ret[MAX_STEPS][12];
+static size_t step_outn[MAX_STEPS];
+static int nsteps, cur_step; /* nsteps == 0: single call, function `f` */
 static void *so_handle;
 
 static int hexv (int c) { return c <= '9' ? c - '0' : (c | 32) - 'a' + 10; }
@@ -71,71 +77,90 @@ static MIR_item_t find_func (MIR_module_t m, const char *name) {
 typedef void (*fun_t) (void *, void *);
 
 /* keep a deep, known-mapped stack above the callee: the probe reads C05_NSTK words above its
-   return address */
+   return address.  All steps of a sequence run in the same context (same ff-interface cache, same
+   generator state). */
 static void __attribute__ ((noinline)) run_one (const char *id, const char *eng, void *callee, int gcc_p) {
   volatile char pad[2048];
   MIR_context_t ctx;
   MIR_module_t m;
   MIR_item_t f;
+  int n = nsteps == 0 ? 1 : nsteps;
+  volatile int k = 0;
+  char sid[96], fname[16];
+  int gen_p = eng[0] != 'i';
   pad[0] = 0;
   pad[2047] = 0;
-  memcpy (in_buf, in_img, sizeof (in_buf));
-  memset (out_buf, 0xEE, sizeof (out_buf));
-  memset (c05_snap, 0, sizeof (c05_snap));
-  c05_calls = 0;
-  if (gcc_p) {
-    uint64_t *gm = dlsym (so_handle, "c05_gmask"), *gc = dlsym (so_handle, "c05_gcalls"),
-             *ga = dlsym (so_handle, "c05_galign");
-    if (gm) *gm = ~0ull;
-    if (gc) *gc = 0;
-    if (ga) *ga = 99;
-    uint64_t *gb = dlsym (so_handle, "c05_gbase");
-    if (gb) *gb = (uint64_t) (uintptr_t) in_buf;
-  }
   ctx = MIR_init ();
   MIR_set_error_func (ctx, err_func);
   if (setjmp (err_jmp)) {
-    printf ("E %s %s %s\n", id, eng, err_msg);
+    for (int j = k; j < n; j++) {
+      if (nsteps == 0) snprintf (sid, sizeof (sid), "%s", id); else snprintf (sid, sizeof (sid), "%s.%d", id, j);
+      printf ("E %s %s %s%s\n", sid, eng, j == k ? "" : "aborted-after-earlier-error ", err_msg);
+    }
     return; /* context abandoned */
   }
   MIR_scan_string (ctx, mir_text);
   m = DLIST_TAIL (MIR_module_t, *MIR_get_module_list (ctx));
-  f = find_func (m, "f");
-  if (f == NULL) {
-    printf ("E %s %s no-func-f\n", id, eng);
-    MIR_finish (ctx);
-    return;
-  }
   MIR_load_module (ctx, m);
   MIR_load_external (ctx, "probe", callee);
-  if (eng[0] == 'i') {
-    MIR_val_t res, a[2];
-    MIR_link (ctx, MIR_set_interp_interface, NULL);
-    a[0].a = in_buf;
-    a[1].a = out_buf;
-    MIR_interp_arr (ctx, f, &res, 2, a);
-  } else {
-    fun_t fun;
+  if (gen_p) {
     MIR_gen_init (ctx);
     MIR_gen_set_optimize_level (ctx, (unsigned) (eng[0] - '0'));
     MIR_link (ctx, MIR_set_gen_interface, NULL);
-    fun = (fun_t) MIR_gen (ctx, f);
-    fun (in_buf, out_buf);
-    MIR_gen_finish (ctx);
-  }
-  if (!gcc_p) {
-    printf ("S %s %s %llu", id, eng, (unsigned long long) c05_calls);
-    for (int i = 0; i < 16 + C05_NSTK; i++) printf (" %llx", (unsigned long long) c05_snap[i]);
-    printf ("\n");
   } else {
-    uint64_t *gm = dlsym (so_handle, "c05_gmask"), *gc = dlsym (so_handle, "c05_gcalls"),
-             *ga = dlsym (so_handle, "c05_galign");
-    printf ("G %s %s %llu %llx %llu\n", id, eng, (unsigned long long) (gc ? *gc : 0),
-            (unsigned long long) (gm ? *gm : ~0ull), (unsigned long long) (ga ? *ga : 99));
+    MIR_link (ctx, MIR_set_interp_interface, NULL);
   }
-  printf ("O %s %s ", id, eng);
-  for (size_t i = 0; i < out_n; i++) printf ("%02x", out_buf[i]);
-  printf ("\n");
+  for (k = 0; k < n; k++) {
+    if (nsteps == 0) {
+      snprintf (sid, sizeof (sid), "%s", id);
+      snprintf (fname, sizeof (fname), "f");
+    } else {
+      snprintf (sid, sizeof (sid), "%s.%d", id, (int) k);
+      snprintf (fname, sizeof (fname), "f%d", (int) k);
+    }
+    f = find_func (m, fname);
+    if (f == NULL) {
+      printf ("E %s %s no-func-%s\n", sid, eng, fname);
+      continue;
+    }
+    memcpy (in_buf, in_img[k], sizeof (in_buf));
+    memset (out_buf, 0xEE, sizeof (out_buf));
+    memset (c05_snap, 0, sizeof (c05_snap));
+    memcpy (c05_ret, step_ret[k], sizeof (step_ret[k]));
+    c05_calls = 0;
+    if (gcc_p) {
+      uint64_t *gm = dlsym (so_handle, "c05_gmask"), *gc = dlsym (so_handle, "c05_gcalls"),
+               *ga = dlsym (so_handle, "c05_galign");
+      if (gm) *gm = ~0ull;
+      if (gc) *gc = 0;
+      if (ga) *ga = 99;
+      uint64_t *gb = dlsym (so_handle, "c05_gbase");
+      if (gb) *gb = (uint64_t) (uintptr_t) in_buf;
+    }
+    if (!gen_p) {
+      MIR_val_t res, a[2];
+      a[0].a = in_buf;
+      a[1].a = out_buf;
+      MIR_interp_arr (ctx, f, &res, 2, a);
+    } else {
+      fun_t fun = (fun_t) MIR_gen (ctx, f);
+      fun (in_buf, out_buf);
+    }
+    if (!gcc_p) {
+      printf ("S %s %s %llu", sid, eng, (unsigned long long) c05_calls);
+      for (int i = 0; i < 16 + C05_NSTK; i++) printf (" %llx", (unsigned long long) c05_snap[i]);
+      printf ("\n");
+    } else {
+      uint64_t *gm = dlsym (so_handle, "c05_gmask"), *gc = dlsym (so_handle, "c05_gcalls"),
+               *ga = dlsym (so_handle, "c05_galign");
+      printf ("G %s %s %llu %llx %llu\n", sid, eng, (unsigned long long) (gc ? *gc : 0),
+              (unsigned long long) (gm ? *gm : ~0ull), (unsigned long long) (ga ? *ga : 99));
+    }
+    printf ("O %s %s ", sid, eng);
+    for (size_t i = 0; i < step_outn[k]; i++) printf ("%02x", out_buf[i]);
+    printf ("\n");
+  }
+  if (gen_p) MIR_gen_finish (ctx);
   MIR_finish (ctx);
   (void) pad[1];
 }
@@ -158,10 +183,15 @@ int main (void) {
       snprintf (id, sizeof (id), "%s", line + 5);
       callee_name[0] = 0;
       nengs = 0;
-      in_n = 0;
-      out_n = 0;
+      nsteps = 0;
+      cur_step = 0;
       memset (in_img, 0, sizeof (in_img));
-      memset (c05_ret, 0, sizeof (c05_ret));
+      memset (step_ret, 0, sizeof (step_ret));
+      memset (step_outn, 0, sizeof (step_outn));
+    } else if (strncmp (line, "STEP ", 5) == 0) {
+      cur_step = atoi (line + 5);
+      if (cur_step < 0 || cur_step >= MAX_STEPS) cur_step = 0;
+      if (cur_step + 1 > nsteps) nsteps = cur_step + 1;
     } else if (strncmp (line, "ENG ", 4) == 0) {
       char *p = strtok (line + 4, " ");
       nengs = 0;
@@ -175,25 +205,26 @@ int main (void) {
       unsigned long long v[9] = {0};
       sscanf (line + 4, "%llx %llx %llx %llx %llx %llx %llx %llx %llx", &v[0], &v[1], &v[2], &v[3],
               &v[4], &v[5], &v[6], &v[7], &v[8]);
-      c05_ret[0] = v[0];
-      c05_ret[1] = v[1];
-      c05_ret[2] = v[2];
-      c05_ret[3] = v[3];
-      c05_ret[4] = v[4];
-      c05_ret[6] = v[5];
-      c05_ret[7] = v[6];
-      c05_ret[8] = v[7];
-      c05_ret[9] = v[8];
+      uint64_t *cr = step_ret[cur_step];
+      cr[0] = v[0];
+      cr[1] = v[1];
+      cr[2] = v[2];
+      cr[3] = v[3];
+      cr[4] = v[4];
+      cr[6] = v[5];
+      cr[7] = v[6];
+      cr[8] = v[7];
+      cr[9] = v[8];
     } else if (strncmp (line, "IN ", 3) == 0) {
       const char *p = line + 3;
-      in_n = 0;
-      while (p[0] && p[1] && in_n < sizeof (in_img)) {
-        in_img[in_n++] = (unsigned char) (hexv (p[0]) * 16 + hexv (p[1]));
+      size_t in_n = 0;
+      while (p[0] && p[1] && in_n < sizeof (in_img[0])) {
+        in_img[cur_step][in_n++] = (unsigned char) (hexv (p[0]) * 16 + hexv (p[1]));
         p += 2;
       }
     } else if (strncmp (line, "OUTN ", 5) == 0) {
-      out_n = (size_t) atoi (line + 5);
-      if (out_n > sizeof (out_buf)) out_n = sizeof (out_buf);
+      step_outn[cur_step] = (size_t) atoi (line + 5);
+      if (step_outn[cur_step] > sizeof (out_buf)) step_outn[cur_step] = sizeof (out_buf);
     } else if (strcmp (line, "MIR") == 0) {
       mir_len = 0;
       while (fgets (line, sizeof (line), stdin)) {
